@@ -484,6 +484,34 @@ func (c *Contract) ownsProp(p string) bool {
 	return has(c.NoPanic)
 }
 
+// hasStar: some clause of the contract is proved under every property (tag *).
+func (c *Contract) hasStar() bool {
+	star := func(ps []string) bool {
+		for _, q := range ps {
+			if q == "*" {
+				return true
+			}
+		}
+		return false
+	}
+	for _, cl := range c.Ensures {
+		if star(cl.Props) {
+			return true
+		}
+	}
+	for _, cl := range c.CallAsrt {
+		if star(cl.Props) {
+			return true
+		}
+	}
+	for _, cl := range c.Invs {
+		if star(cl.Props) {
+			return true
+		}
+	}
+	return star(c.NoPanic)
+}
+
 type SpecFunc struct {
 	Name string
 	Args []string
